@@ -1,3 +1,4 @@
+import Cactus.Lemmas.Release
 import Cactus.Lemmas.Basic
 /-!
 # C04 — destroyed objects return all memory (first layer: the release steps)
@@ -21,7 +22,8 @@ theorem C04_decWeak_frees_iff (s : State) (o : Nat) (ob : Obj) (imp : Bool) (hc 
   | zero =>
     simp only [hw]
     constructor
-    · simp [State.emit, State.cell, setObj_get_same s o _ (cell_some_lt s o ob hc)]
+    · have hlt := cell_some_lt s o ob hc
+      simp [State.emit, State.cell, State.setObj, List.getElem?_set_self hlt]
     · rfl
   | succ w =>
     simp only [hw]
@@ -56,5 +58,31 @@ theorem C04_no_double_release (s : State) (o : Nat) (imp : Bool) (h : s.cell o =
 
 example : (({ heap := [{ strong := .uninit, weak := 1, links := some [], value := none, freed := false }] } : State).finishSingle 0).heap
     = [{ strong := .uninit, weak := 0, links := none, value := none, freed := true, implicit := false }] := by decide
+
+
+/-! ## Over whole panic-free histories
+
+A panicking destructor legitimately leaks the allocations of the interrupted teardown (C11), so
+the exact-release statement is about executions in which no destructor panics (`ReachableNP`:
+no `setPanic` anywhere).  -/
+
+/-- **C04.** Between operations, for every object whose value has been destroyed (or moved out by
+`try_unwrap`/`make_mut`): its link table and value are gone, its implicit weak reference has been
+released, and its allocation is released exactly when no Weak handle to it remains — for every
+path by which it died (plain last-handle drop, zero count with adoptions, member of a collected
+group). -/
+theorem C04_destroyed_objects_return_memory {s : State} (h : ReachableNP s) (he : s.err = none)
+    (hq : s.stack = []) {o : Nat} {ob : Obj} (hg : s.heap[o]? = some ob) (hd : ob.strong.isDead = true) :
+    ob.links = none ∧ ob.value = none ∧ ob.implicit = false
+      ∧ (ob.freed = true ↔ s.extW o + s.inHeapW o = 0) :=
+  C04_dead_object_released h he hq hg hd
+
+/-- after a history in which every object has been destroyed and every Weak dropped, every
+allocation has been released -/
+theorem C04_fully_collected_graph_leaks_nothing {s : State} (h : ReachableNP s) (he : s.err = none)
+    (hq : s.stack = []) (hall : ∀ (o : Nat) (ob : Obj), s.heap[o]? = some ob → ob.strong.isDead = true)
+    (hw : s.wroots = []) (hv : s.vals = []) :
+    ∀ (o : Nat) (ob : Obj), s.heap[o]? = some ob → ob.freed = true :=
+  C04_all_collected_nothing_left h he hq hall hw hv
 
 end Cactus
